@@ -326,7 +326,7 @@ def run(ctx):
                 % ('' if quick else ',3', 4 if quick else 6, 'a seeded sample with one descriptor from every (class, method, field, precision, batch, magnitude, option) cell and every (class, method, field, dim, rank) cell' if quick else 'all', SCALE))
     ctx.assumptions = ['TLC/SANY correct', 'membership up to the rounding tolerance: 2.5% of the squared scale for quadratic constraints, 1-3 units for linear ones',
                        'theta uniform in [-m, m]^n for the magnitude m of the descriptor (10 is the bound of the Cholesky-L map: m <= 2 there; exp up to 20)']
-    ctx.not_covered = ['membership finer than the rounding tolerance (e.g. STRICT inequality of the open ball / open interval at saturation)', 'ABkHermitian / ABk2localHermitian helper classes',
+    ctx.not_covered = ['membership finer than the rounding tolerance (e.g. STRICT inequality of the open ball / open interval at saturation)', 'ABkHermitian / ABk2localHermitian helper classes', 'the thin wrappers quantum_state / density_matrix / quantum_gate of manifold/_compose.py (they forward to Sphere / Trace1PSD / SpecialOrthogonal, which are covered)',
                        'devices other than the CPU']
     ctx.tolerances = dict(scale=SCALE, quadratic='1/40 of the squared scale', same='3 units')
     r = tlc.run('manifold/MC_ManifoldArgs.tla', 'manifold/MC_ManifoldArgs_%s.cfg' % ('q' if quick else 't'), dump=True, timeout=3000)
